@@ -171,6 +171,11 @@ fn gen_bcast(rng: &mut Rng, max: u64, nasid: u64) -> Value {
     if rng.chance(45) {
         s["pcid"] = json!(gen_pcid(rng));
     }
+    if nasid < 65536 && rng.chance(15) {
+        // an ASID the processor does not have is asked for first; the error is ignored and the
+        // same builder is used for the flush
+        s["rejected_first"] = json!(if rng.chance(50) { nasid } else { nasid + rng.below(65536 - nasid) });
+    }
     if rng.chance(45) {
         s["asid"] = json!(match rng.below(6) {
             0 => 0,
@@ -190,7 +195,7 @@ pub fn gen(seed: u64) -> Replay {
     let mut steps = vec![];
     let mut cur: Option<(u64, u64)> = None;
     for _ in 0..n {
-        let k = if cur.is_none() { rng.weighted(&[3, 4, 4, 0, 0]) } else { rng.weighted(&[1, 2, 2, 8, 1]) };
+        let k = if cur.is_none() { rng.weighted(&[3, 4, 4, 0, 0, 2]) } else { rng.weighted(&[1, 2, 2, 8, 1, 1]) };
         match k {
             0 => {
                 let s = gen_new(&mut rng);
@@ -215,7 +220,15 @@ pub fn gen(seed: u64) -> Replay {
                 let (max, nasid) = cur.unwrap();
                 steps.push(gen_bcast(&mut rng, max, nasid));
             }
-            _ => steps.push(json!({"op": "tlbsync"})),
+            4 => steps.push(json!({"op": "tlbsync"})),
+            _ => {
+                // address-space switch followed by a complete flush, all in one function
+                let root = |rng: &mut Rng| (rng.below(1 << 40) << 12) | (rng.below(4) << 3);
+                let (old, new) = (root(&mut rng), root(&mut rng));
+                let addr = gen_addr(&mut rng);
+                let tlb = gen_tlb(&mut rng, 0, addr);
+                steps.push(json!({"op": "switch", "old": old, "new": new, "reads_before": rng.below(3), "tlb": tlb}));
+            }
         }
     }
     Replay { property: "C11".into(), simulator: "cpusim".into(), seed, config: json!({}), steps, violation: None, minimised_from_steps: None }
@@ -304,7 +317,11 @@ struct Opts {
     fin: bool,
     nested: bool,
     pages_first: bool,
+    /// an out-of-range ASID whose rejection is ignored before the other options are applied
+    rejected_first: Option<u16>,
 }
+
+static REJECT_ACCEPTED: std::sync::atomic::AtomicBool = std::sync::atomic::AtomicBool::new(false);
 
 #[derive(Debug, PartialEq, Eq)]
 enum Outcome {
@@ -313,6 +330,11 @@ enum Outcome {
 }
 
 fn apply<'a, S: NotGiantPageSize>(mut b: InvlpgbFlushBuilder<'a, S>, o: &Opts) -> Option<InvlpgbFlushBuilder<'a, S>> {
+    if let Some(bad) = o.rejected_first {
+        if unsafe { b.asid(bad) }.is_ok() {
+            REJECT_ACCEPTED.store(true, std::sync::atomic::Ordering::Relaxed);
+        }
+    }
     if let Some(p) = o.pcid {
         unsafe { b.pcid(Pcid::new(p).unwrap()) };
     }
@@ -659,6 +681,50 @@ pub fn run(rp: &Replay, st: &mut Stats) -> Option<Violation> {
                 }
                 st.distinct_key(&[2, (op == "flush") as u64, kind, (addr >> 63), (addr & 0xfff != 0) as u64, (pcid == 0) as u64, (pcid == 4095) as u64, (pcid == cur_pcid) as u64, before.len().min(4) as u64]);
             }
+            "switch" => {
+                use x86_64::registers::control::Cr3;
+                use x86_64::structures::paging::PhysFrame;
+                use x86_64::PhysAddr;
+                let old = s["old"].as_u64().unwrap_or(0x1000) & 0x000f_ffff_ffff_f018;
+                let new = s["new"].as_u64().unwrap_or(0x2000) & 0x000f_ffff_ffff_f018;
+                let reads = s["reads_before"].as_u64().unwrap_or(1).min(2);
+                let w = world();
+                w.cpu.cr4 &= !CR4_PCIDE;
+                w.cpu.cr3 = old;
+                let before = install_tlb(s);
+                let r = sut_call("cr3 switch + flush_all", || {
+                    let mut seen = 0u64;
+                    for _ in 0..reads {
+                        seen ^= Cr3::read_raw().0.start_address().as_u64();
+                    }
+                    unsafe { Cr3::write_raw(PhysFrame::containing_address(PhysAddr::new(new & !0xfff)), (new & 0xfff) as u16) };
+                    tlb::flush_all();
+                    let (f, v) = Cr3::read_raw();
+                    (seen, f.start_address().as_u64() | v as u64)
+                });
+                st.calls += 1;
+                let trace = std::mem::take(&mut world().cpu.trace);
+                let (_, after) = match r {
+                    Ok(x) => x,
+                    Err(m) => return Some(viol(P, "panic", i, format!("cr3 switch + flush_all panicked: {m}"))),
+                };
+                let mut want = vec![];
+                for _ in 0..reads {
+                    want.push(Ev::ReadCr { cr: 3, val: old });
+                }
+                want.extend([Ev::WriteCr { cr: 3, val: new }, Ev::ReadCr { cr: 3, val: new }, Ev::WriteCr { cr: 3, val: new }, Ev::ReadCr { cr: 3, val: new }]);
+                if trace != want {
+                    return Some(viol(P, "flush-all-after-switch", i, format!("root register {old:#x}; {reads} reads, a switch to {new:#x}, flush_all() and a read in one function executed {trace:x?}; flush_all must reload the root register with its current value {new:#x}")));
+                }
+                if after != new || world().cpu.cr3 != new {
+                    return Some(viol(P, "flush-all-after-switch", i, format!("after a switch to {new:#x} and flush_all() the root register holds {:#x} and reads back as {after:#x}", world().cpu.cr3)));
+                }
+                if world().cpu.tlb.map.values().any(|e| !e.global) || before.iter().any(|(k, e)| e.global && !world().cpu.tlb.map.contains_key(k)) {
+                    return Some(viol(P, "tlb-effect", i, "flush_all left a non-global translation in the TLB or removed a global one".into()));
+                }
+                st.count("switch_then_flush_all");
+                st.distinct_key(&[5, reads, (old == new) as u64, before.len().min(3) as u64]);
+            }
             "tlbsync" => {
                 let Some(c) = cur.as_ref() else { continue };
                 world().cpu.cpuid = CpuidParams { invlpgb: true, invlpgb_max: c.max as u16, nested: c.nested, nasid: c.nasid as u32 };
@@ -695,7 +761,9 @@ pub fn run(rp: &Replay, st: &mut Stats) -> Option<Violation> {
                     fin: s["final"].as_bool().unwrap_or(false),
                     nested: s["nested"].as_bool().unwrap_or(false),
                     pages_first: s["pages_first"].as_bool().unwrap_or(true),
+                    rejected_first: s["rejected_first"].as_u64().filter(|&a| a >= c.nasid && a < 65536).map(|a| a as u16),
                 };
+                REJECT_ACCEPTED.store(false, std::sync::atomic::Ordering::Relaxed);
                 let w = world();
                 w.cpu.cpuid = CpuidParams { invlpgb: true, invlpgb_max: c.max as u16, nested: c.nested, nasid: c.nasid as u32 };
                 // termination guard: the requests of one flush are bounded by len + 2
@@ -709,6 +777,12 @@ pub fn run(rp: &Replay, st: &mut Stats) -> Option<Violation> {
                 st.calls += 1;
                 world().trap_budget = 1 << 20;
                 let trace = std::mem::take(&mut world().cpu.trace);
+                if REJECT_ACCEPTED.load(std::sync::atomic::Ordering::Relaxed) {
+                    return Some(viol(P, "asid-range", i, format!("asid({}) was accepted although the processor has only {} ASIDs", o.rejected_first.unwrap_or(0), c.nasid)));
+                }
+                if o.rejected_first.is_some() {
+                    st.count("bcast_after_ignored_asid_rejection");
+                }
                 let n_inv = trace.iter().filter(|e| matches!(e, Ev::Invlpgb { .. })).count();
                 let asid_bad = o.asid.map(|x| x as u64 >= c.nasid).unwrap_or(false);
                 let nested_bad = o.nested && !c.nested;
